@@ -18,6 +18,11 @@ func EmptySignature(group curve.Curve) Signature {
 func (sig Signature) Verify(X curve.Point, hash []byte) bool {
 	group := X.Curve()
 
+	// the point at infinity is not a public key: with it the equation below holds for R = s⁻¹·m·G
+	if X.IsIdentity() {
+		return false
+	}
+
 	r := sig.R.XScalar()
 	if r.IsZero() || sig.S.IsZero() {
 		return false
